@@ -75,11 +75,15 @@ fn call<R>(op: Value, f: impl FnOnce() -> R) -> (R, usize) {
     });
     let out = f();
     let idx = with_rec(|r| {
-        let (ev, taken) = {
+        let (ev, taken, split) = {
             let c = r.ctx.entry(id).or_default();
             c.op = None;
-            (c.ev.take(), std::mem::take(&mut c.wakes_out))
+            (c.ev.take(), std::mem::take(&mut c.wakes_out), std::mem::take(&mut c.split))
         };
+        if split > 0 {
+            // the drop of the last handle of a side has returned: by now the channel has to be closed
+            r.log.push(json!({"op": "drop_returned", "wakes": [], "taken": []}));
+        }
         let idx = match ev {
             Some(i) => i,
             None => {
@@ -606,9 +610,16 @@ fn prog_mpmc_shared(consts: &Value) {
         let (rxc, _) = call(json!({"op": "clone_receiver"}), || rx.clone());
         hs.push(shuttle::thread::spawn(move || {
             let mut got = 0;
+            let mut rxo = Some(rxc);
             loop {
-                let (fut, _) = call(json!({"op": "create_recv", "r": c}), || rxc.receive());
+                let (fut, _) = call(json!({"op": "create_recv", "r": c}), || rxo.as_ref().unwrap().receive());
                 let mut fut = Box::pin(fut);
+                // the future owns a reference of its own: the handle may go away first
+                let orphan = choice(4) == 0;
+                if orphan {
+                    let h = rxo.take().unwrap();
+                    call(json!({"op": "drop_receiver"}), move || drop(h));
+                }
                 let mut end = false;
                 loop {
                     let vr = variant();
@@ -637,11 +648,13 @@ fn prog_mpmc_shared(consts: &Value) {
                 }
                 call(json!({"op": "drop_recv", "r": c}), move || drop_keep(fut));
                 // a consumer may walk away early; when all of them have, senders get their values back
-                if end || (got >= 1 && choice(4) == 0) {
+                if end || orphan || (got >= 1 && choice(4) == 0) {
                     break;
                 }
             }
-            call(json!({"op": "drop_receiver"}), move || drop(rxc));
+            if let Some(h) = rxo.take() {
+                call(json!({"op": "drop_receiver"}), move || drop(h));
+            }
         }));
     }
     call(json!({"op": "drop_sender"}), move || drop(tx));
@@ -867,7 +880,12 @@ fn prog_state_shared(consts: &Value) {
         hs.push(shuttle::thread::spawn(move || {
             let mut id = StateId::new();
             let mut got = 0;
+            let mut rxo = Some(rxt);
             loop {
+                let rxt = match rxo.as_ref() {
+                    Some(h) => h,
+                    None => break,
+                };
                 if choice(3) == 0 {
                     // a non-blocking look first
                     let idn = id.verif_value();
@@ -884,6 +902,11 @@ fn prog_state_shared(consts: &Value) {
                 let (fut, _) = call(json!({"op": "create", "r": t, "id": idn}), || rxt.receive(id));
                 let mut fut = Box::pin(fut);
                 let mut end = false;
+                // the future owns a reference of its own: the handle may go away first
+                if choice(4) == 0 {
+                    let h = rxo.take().unwrap();
+                    call(json!({"op": "drop_receiver"}), move || drop(h));
+                }
                 loop {
                     let v = variant();
                     let w = mk_waker(json!([t, v]));
@@ -912,11 +935,13 @@ fn prog_state_shared(consts: &Value) {
                 }
                 call(json!({"op": "drop", "r": t}), move || drop_keep(fut));
                 // a follower may leave early; when all of them have, the channel closes under the publishers
-                if end || (got >= 1 && choice(5) == 0) {
+                if end || rxo.is_none() || (got >= 1 && choice(5) == 0) {
                     break;
                 }
             }
-            call(json!({"op": "drop_receiver"}), move || drop(rxt));
+            if let Some(h) = rxo.take() {
+                call(json!({"op": "drop_receiver"}), move || drop(h));
+            }
         }));
     }
     for p in 0..ns {
@@ -953,6 +978,12 @@ fn prog_oneshot_bc_shared(consts: &Value) {
         hs.push(shuttle::thread::spawn(move || {
             let (fut, _) = call(json!({"op": "create", "r": t}), || rxt.receive());
             let mut fut = Box::pin(fut);
+            // the future owns a reference of its own: the handle may go away first
+            let mut rxo = Some(rxt);
+            if choice(3) == 0 {
+                let h = rxo.take().unwrap();
+                call(json!({"op": "drop_receiver"}), move || drop(h));
+            }
             loop {
                 let v = variant();
                 let w = mk_waker(json!([t, v]));
@@ -977,7 +1008,9 @@ fn prog_oneshot_bc_shared(consts: &Value) {
                 }
             }
             call(json!({"op": "drop", "r": t}), move || drop_keep(fut));
-            call(json!({"op": "drop_receiver"}), move || drop(rxt));
+            if let Some(h) = rxo.take() {
+                call(json!({"op": "drop_receiver"}), move || drop(h));
+            }
         }));
     }
     hs.push(shuttle::thread::spawn(move || {
